@@ -78,9 +78,240 @@ def model_line_b1d(counts, elo, ehi, cap, cont, max_iter, min_h=60.0, max_h=135.
 
 
 def split_model(ans: str):
-    """'selected 3 H bisection | 0:L 0:H …' -> ('selected 3 H', 'bisection', trace)"""
-    o, _, tr = ans.partition(" | ")
+    """'selected 3 H bisection | 0:L 0:H …' -> ('selected 3 H', 'bisection', trace);
+    nested: 'selected 1 3 H | …' -> ('selected 1 3 H', None, trace); solve_root: 'bracketed n/d'."""
+    o, sep, tr = ans.partition(" | ")
     toks = o.split()
-    if toks and toks[0] == "selected":
-        return " ".join(toks[:3]), toks[3], tr.strip()
+    if toks and toks[0] == "selected" and toks[-1] in ("bisection", "bracket0", "tooSmallCont", "tooBigCont"):
+        return " ".join(toks[:-1]), toks[-1], tr.strip()
     return o.strip(), None, tr.strip()
+
+
+# ----------------------------------------------------------------------------- nested searches
+def _stub_init(self, coordinates_domain, field_descriptors, v_flow, borehole, bhe_type, fluid, pipe, grout, soil, sim_params,
+               hourly_extraction_ground_loads, method=None, flow_type=None, max_iter=15, disp=False, search=True,
+               field_type="N/A", load_years=None):
+    """Stands in for Bisection1D.__init__ (which builds a real GHE): sets exactly the attributes the
+    search code reads."""
+    self.searchTracker = []
+    self.sim_params = sim_params
+    self.coordinates_domain = coordinates_domain
+    self.fieldDescriptors = field_descriptors
+    self.max_iter = max_iter
+    self.disp = disp
+    self.calculated_temperatures = {}
+    self.load_years = load_years
+
+
+class _FakeGHE:
+    """`self.ghe` for BisectionZD: compute_g_functions() is a no-op, size() sets H from the oracle of the
+    field that was initialised last."""
+
+    def __init__(self, owner):
+        self.owner = owner
+        self.bhe = types.SimpleNamespace(b=types.SimpleNamespace(H=None))
+
+    def compute_g_functions(self):
+        pass
+
+    def size(self, method=None):
+        l, i = self.owner._last_init_pos
+        self.bhe.b.H = self.owner._sz[l][i]
+
+
+def _run_nested(cls_name, nc, elo, ehi, sz, cap, cont, max_iter, min_h=60.0, max_h=135.0):
+    """nc[l][i] = borehole count; elo/ehi[l][i] = excess at min/max height; sz[l][i] = sized height."""
+    from unittest import mock
+
+    import ghedesigner.search_routines as sr
+
+    fields = [[[(float(l), float(i), float(j)) for j in range(nc[l][i])] for i in range(len(nc[l]))] for l in range(len(nc))]
+    descs = [[f"L{l}F{i}" for i in range(len(nc[l]))] for l in range(len(nc))]
+    pos = {}
+    for l, lst in enumerate(fields):
+        for i, f in enumerate(lst):
+            pos[id(f)] = (l, i)
+    trace = []
+    base = getattr(sr, cls_name)
+
+    class Fake(base):
+        def calculate_excess(self, coords, h, field_specifier="N/A"):
+            l, i = pos[id(coords)]
+            # which list is being searched: the outer domain reuses the same field objects
+            trace.append((l, i, h))
+            self._last_init_pos = (l, i)
+            self._last_init_h = h
+            return ehi[l][i] if h == max_h else elo[l][i]
+
+        def initialize_ghe(self, coords, h, field_specifier="N/A"):
+            self._last_init_pos = pos[id(coords)]
+            self._last_init_h = h
+            if cls_name == "BisectionZD":
+                self.ghe = _FakeGHE(self)
+
+        def _cur_list(self):
+            for l, lst in enumerate(fields):
+                if self.coordinates_domain is lst:
+                    return l
+            return -1
+
+        def search(self):
+            if not hasattr(self, "_outer"):
+                self._outer = self.coordinates_domain
+            return super().search()
+
+    sim = types.SimpleNamespace(max_boreholes=cap, min_height=min_h, max_height=max_h, continue_if_design_unmet=cont)
+    obj = None
+    try:
+        with mock.patch.object(sr.Bisection1D, "__init__", _stub_init), ghelib.quiet():
+            Fake._sz = sz
+            obj = Fake.__new__(Fake)
+            obj._sz = sz
+            obj.ghe = _FakeGHE(obj)
+            obj.__init__(fields, descs, 0.5, None, None, None, None, None, None, sim, [], method=None, flow_type=None, max_iter=max_iter)
+        l, i = obj._last_init_pos
+        assert fields[l][obj.selection_key] is obj.selected_coordinates or cls_name == "BisectionZD", "selection mismatch"
+        if cls_name == "BisectionZD":
+            h = obj.ghe.bhe.b.H
+            out = f"selected {l} {obj.selection_key} {core.rs(h)}"
+        else:
+            out = f"selected {l} {obj.selection_key} {'H' if obj._last_init_h == max_h else 'L'}"
+    except AssertionError:
+        raise
+    except Exception as e:  # noqa: BLE001
+        out = exc_name(e)
+    trs = " ".join(f"{w}.{i}:{'H' if h == max_h else 'L'}" for w, i, h in trace)
+    return out, trs
+
+
+def real_b2d(nc, elo, ehi, cap, cont, max_iter):
+    return _run_nested("Bisection2D", nc, elo, ehi, [[0.0] * len(x) for x in nc], cap, cont, max_iter)
+
+
+def real_bzd(nc, elo, ehi, sz, cap, cont, max_iter):
+    return _run_nested("BisectionZD", nc, elo, ehi, sz, cap, cont, max_iter)
+
+
+def _flat(nc, *tables):
+    parts = [str(len(nc))] + [str(len(x)) for x in nc]
+    parts += [str(c) for lst in nc for c in lst]
+    for t in tables:
+        parts += [core.rs(v) for lst in t for v in lst]
+    return parts
+
+
+def model_line_b2d(nc, elo, ehi, cap, cont, max_iter, min_h=60.0, max_h=135.0):
+    return " ".join(["b2d", "-" if cap is None else str(cap), "1" if cont else "0", str(max_iter), core.rs(min_h), core.rs(max_h)] + _flat(nc, elo, ehi))
+
+
+def model_line_bzd(nc, elo, ehi, sz, cap, cont, max_iter, min_h=60.0, max_h=135.0):
+    return " ".join(["bzd", "-" if cap is None else str(cap), "1" if cont else "0", str(max_iter), core.rs(min_h), core.rs(max_h)] + _flat(nc, elo, ehi, sz))
+
+
+def nested_cases(rng, n):
+    out = []
+    vals = [-2.0, -1.0, 1.0, 2.0, 0.5, -0.5, 0.0]
+    for t in range(n):
+        nl = rng.randint(1, 5)
+        nc, elo, ehi, sz = [], [], [], []
+        mono = rng.random() < 0.6
+        for l in range(nl):
+            m = rng.randint(1, 7)
+            counts = sorted(rng.sample(range(1 + l, 40 + l), m))
+            nc.append(counts)
+            if mono:
+                th = rng.randint(0, m)
+                base = rng.uniform(0.5, 3.0)
+                ehi.append([round((th - i - 0.5) * base + 0.001 * i + 0.0001 * l, 6) for i in range(m)])
+                elo.append([round(v + 4.0, 6) for v in ehi[-1]])
+            else:
+                ehi.append([rng.choice(vals) + 0.001 * i for i in range(m)])
+                elo.append([rng.choice(vals) for _ in range(m)])
+            sz.append([round(rng.uniform(60.0, 135.0), 3) for _ in range(m)])
+        cap = rng.choice([None, None, 5, 20, 100])
+        cont = rng.random() < 0.4
+        mi = rng.choice([15, 15, 2, 0])
+        if t % 2 == 0:
+            out.append(("b2d", (nc, elo, ehi, cap, cont, mi)))
+        else:
+            out.append(("bzd", (nc, elo, ehi, sz, cap, cont, mi)))
+    return out
+
+
+def check_nested_predicate(ctx, kind, args, out_r, tr_r):
+    """C01/C02/C05 sentences on the real nested-search result."""
+    if not out_r.startswith("selected"):
+        if not (out_r == "ValueError" or out_r.startswith("raise ZeroDivisionError") or out_r.startswith("raise IndexError")):
+            ctx.finding(f"{kind}-exception-type", f"{kind} ended with {out_r}", {"kind": kind, "args": args, "real": out_r, "trace": tr_r})
+        return
+    nc, elo, ehi = args[0], args[1], args[2]
+    cap, cont = (args[3], args[4]) if kind == "b2d" else (args[4], args[5])
+    _, l, k, _h = out_r.split()
+    l, k = int(l), int(k)
+    if cap is not None and nc[l][k] >= cap and sorted(nc[l]) == nc[l]:
+        ctx.finding(f"{kind}-cap", f"{kind} returned a field with {nc[l][k]} boreholes, cap {cap}", {"kind": kind, "args": args, "real": out_r})
+    if not cont and ehi[l][k] > 0 and not (k == 0 and elo[l][0] * ehi[l][0] < 0):
+        ctx.finding(f"{kind}-infeasible-selection", f"{kind} returned field ({l},{k}) with positive excess at max height without the continue flag",
+                    {"kind": kind, "args": args, "real": out_r, "trace": tr_r})
+
+
+# ----------------------------------------------------------------------------- solve_root
+def real_solve_root(x, flo, fhi, lo, hi):
+    """Real utilities.solve_root on a piecewise-linear objective through (lo,flo),(hi,fhi)."""
+    from ghedesigner.utilities import solve_root
+
+    def f(h):
+        if h == lo:
+            return flo
+        if h == hi:
+            return fhi
+        return flo + (fhi - flo) * (h - lo) / (hi - lo)
+
+    try:
+        r = solve_root(x, f, lower=lo, upper=hi, abs_tol=1e-6, rel_tol=1e-6, max_iter=50)
+        if r == lo:
+            return ("clampedLow" if flo < 0 and fhi < 0 else "bracketed-at-lo", float(r)), ""
+        if r == hi:
+            return ("clampedHigh" if flo > 0 and fhi > 0 else "bracketed-at-hi", float(r)), ""
+        return ("bracketed", float(r)), ""
+    except Exception as e:  # noqa: BLE001
+        return (exc_name(e), None), ""
+
+
+def model_line_root(x, flo, fhi, lo, hi):
+    # the model gets Brent's answer as a parameter: the exact root of the linear objective
+    from fractions import Fraction
+
+    a, b, fl, fh = core.frac(lo), core.frac(hi), core.frac(flo), core.frac(fhi)
+    brent = a - fl * (b - a) / (fh - fl) if fh != fl else a
+    return " ".join(["solveroot", core.rs(x), core.rs(flo), core.rs(fhi), core.rs(lo), core.rs(hi), f"{Fraction(brent).numerator}/{Fraction(brent).denominator}"])
+
+
+def root_cases(rng, n):
+    out = []
+    for _ in range(n):
+        lo = round(rng.uniform(20, 100), 2)
+        hi = round(lo + rng.uniform(0.5, 200), 2)
+        flo = rng.choice([-1, 1]) * rng.uniform(1e-4, 5.0) if rng.random() > 0.03 else 0.0
+        fhi = rng.choice([-1, 1]) * rng.uniform(1e-4, 5.0) if rng.random() > 0.03 else 0.0
+        out.append(("root", ((lo + hi) / 2, flo, fhi, lo, hi)))
+    return out
+
+
+def check_root_predicate(ctx, args, out_r):
+    x, flo, fhi, lo, hi = args
+    kind, r = out_r
+    if r is None:
+        if not (kind == "raise ZeroDivisionError" and (flo == 0 or fhi == 0)):
+            ctx.finding("solve-root-exception", f"solve_root raised {kind} for f(lo)={flo}, f(hi)={fhi}", {"args": args})
+        return
+    if not (lo <= r <= hi):
+        ctx.finding("solve-root-outside-window", f"solve_root returned {r} outside [{lo},{hi}]", {"args": args})
+    if flo * fhi < 0:
+        root = lo - flo * (hi - lo) / (fhi - flo)
+        if abs(r - root) > 2 * (1e-6 + 1e-6 * hi):
+            ctx.finding("solve-root-not-a-root", f"bracketed solve returned {r}, root is {root}", {"args": args})
+    elif flo < 0 and fhi < 0 and r != lo:
+        ctx.finding("solve-root-clamp", f"both ends negative but returned {r} != lower bound", {"args": args})
+    elif flo > 0 and fhi > 0 and r != hi:
+        ctx.finding("solve-root-clamp", f"both ends positive but returned {r} != upper bound", {"args": args})
